@@ -55,7 +55,6 @@ Proof.
   assert (H1 : nth 1 body 0 = zlen q mod 256) by reflexivity.
   rewrite H0, H1. rewrite (rd16_u16be (zlen q)) by lia.
   destruct (2 + zlen q + 2 + zlen b <? 2) eqn:E1; [apply Z.ltb_lt in E1; lia|].
-  destruct (2 + zlen q + 2 + zlen b <? 2 + zlen q) eqn:E2; [apply Z.ltb_lt in E2; lia|].
   destruct (2 + zlen q + 2 + zlen b <? 2 + zlen q + 2) eqn:E3; [apply Z.ltb_lt in E3; lia|].
   assert (Hoff : Z.to_nat (2 + zlen q) = (2 + length q)%nat) by (unfold zlen; lia).
   rewrite Hoff.
@@ -214,7 +213,10 @@ Lemma handle_file_generate f ver v t q b rest po ack : paths_ok q b ->
       end
   end.
 Proof.
-  intros Hp. unfold handle_file. rewrite body_of_generate by assumption.
+  intros Hp. unfold handle_file. cbn [h_len mkhdr].
+  assert (Hl : (c_headerSize + 2 + zlen q + 2 + zlen b <? c_headerSize) = false)
+    by (apply Z.ltb_ge; pose proof (zlen_nonneg q); pose proof (zlen_nonneg b); lia).
+  rewrite Hl. rewrite body_of_generate by assumption.
   destruct Hp as [Hq Hb]. rewrite extract_meta_body by assumption. reflexivity.
 Qed.
 
@@ -259,7 +261,10 @@ Proof.
   rewrite check_valid_ok by (consts; lia). cbn [h_type mkhdr].
   change (c_typeShareMemoryByMemfd =? c_typeShareMemoryByFilePath) with false.
   change (c_typeShareMemoryByMemfd =? c_typeShareMemoryByMemfd) with true. cbv iota.
-  rewrite body_of_generate by assumption. destruct Hp as [Hq Hb]. rewrite extract_meta_body by assumption.
+  cbn [h_len mkhdr].
+  assert (Hl : (c_headerSize + 2 + zlen q + 2 + zlen b <? c_headerSize) = false)
+    by (apply Z.ltb_ge; pose proof (zlen_nonneg q); pose proof (zlen_nonneg b); lia).
+  rewrite Hl. rewrite body_of_generate by assumption. destruct Hp as [Hq Hb]. rewrite extract_meta_body by assumption.
   reflexivity.
 Qed.
 
